@@ -20,14 +20,14 @@ pub fn def() -> PropDef {
     PropDef {
         id: "C13",
         level: "model_checking",
-        rule: "(a) every sequence of length <= d over {remote insert of an entry of a two-author universe, remove-and-recreate the document}; after the last step get_latest_for_each_author and has_news_for_us(h) for every peer report h in {absent,T1,T2,T3}^2 are compared with the heads of the reference replica; (b) AuthorHeads::encode/decode for every set of <= 4 authors with timestamps from {1,2,127,128,16383,16384} (equal timestamps included) under every size limit from 1 to unlimited length + 1 and without limit; non-trivial (a) = the sequence holds two entries of one author with different timestamps or a removal after an insert, (b) = at least two authors",
+        rule: "(a) every sequence of length <= d over {remote insert of an entry of a two-author universe, remove-and-recreate the document}; after the last step get_latest_for_each_author and has_news_for_us(h) for every peer report h in {absent,0,T1,T2,T3}^2 are compared with the heads of the reference replica; (b) AuthorHeads::encode/decode for every set of <= 4 authors with timestamps from {0,1,2,127,128,16383,16384} (equal timestamps included) under every size limit from 1 to unlimited length + 1 and without limit; non-trivial (a) = the sequence holds two entries of one author with different timestamps or a removal after an insert, (b) = at least two authors",
         assumptions: &[
             "size limit 0 is excluded: no postcard sequence fits into zero bytes",
             "where several keys attain an author's maximal timestamp any of them is accepted as the head's key",
         ],
         bound: |t| match t {
-            Tier::Quick => json!({"a": "37-symbol alphabet (2 authors x {'',a,ab} x ts1..3 x {x,DEL} + recreate), depth <= 3", "b": "2401 head sets x all limits"}),
-            Tier::Thorough => json!({"a": "37-symbol alphabet depth <= 3 plus 25-symbol alphabet (2 authors x {a,ab} x ts1..3 x {x,DEL} + recreate) depth 4", "b": "2401 head sets x all limits"}),
+            Tier::Quick => json!({"a": "37-symbol alphabet (2 authors x {'',a,ab} x ts1..3 x {x,DEL} + recreate), depth <= 3", "b": "4166 head sets x all limits"}),
+            Tier::Thorough => json!({"a": "37-symbol alphabet depth <= 3 plus 25-symbol alphabet (2 authors x {a,ab} x ts1..3 x {x,DEL} + recreate) depth 4", "b": "4166 head sets x all limits"}),
         },
         run,
         replay,
@@ -143,14 +143,17 @@ fn run_history(ops: &[Op]) -> (Vec<(&'static str, Value, String)>, String) {
     }
     // news detection for every peer report
     let mut news_digest = vec![];
-    for h0 in 0..4u64 {
-        for h1 in 0..4u64 {
+    // report values: 0 = author absent from the report, 1..=3 = T0+1..T0+3, 4 = timestamp 0
+    // (the smallest legal timestamp: an unknown author is news whatever its timestamp)
+    let ts_of = |h: u64| if h == 4 { 0 } else { T0 + h };
+    for h0 in 0..5u64 {
+        for h1 in 0..5u64 {
             let mut heads = AuthorHeads::default();
             if h0 > 0 {
-                heads.insert(author_id(0), T0 + h0);
+                heads.insert(author_id(0), ts_of(h0));
             }
             if h1 > 0 {
-                heads.insert(author_id(1), T0 + h1);
+                heads.insert(author_id(1), ts_of(h1));
             }
             let got = sut
                 .store
@@ -165,7 +168,7 @@ fn run_history(ops: &[Op]) -> (Vec<(&'static str, Value, String)>, String) {
                 }
                 match want.get(&author_id(a).to_bytes()) {
                     None => want_n += 1,
-                    Some(ours) if T0 + h > *ours => want_n += 1,
+                    Some(ours) if ts_of(h) > *ours => want_n += 1,
                     _ => {}
                 }
             }
@@ -189,7 +192,7 @@ fn run_history(ops: &[Op]) -> (Vec<(&'static str, Value, String)>, String) {
 // (b) encode / decode
 // ---------------------------------------------------------------------------------------
 
-const TS: [u64; 6] = [1, 2, 127, 128, 16383, 16384];
+const TS: [u64; 7] = [0, 1, 2, 127, 128, 16383, 16384];
 
 fn aid(i: u8) -> AuthorId {
     let mut b = [0x40u8; 32];
